@@ -9,7 +9,7 @@ def gen_case(rng, big=False):
     kind = rng.choice(["dna", "protein", "protein", "rna"])
     alpha = {"dna": gen.DNA, "rna": gen.RNA, "protein": gen.AA}[kind]
     mode = rng.choice(["equal", "equal", "family", "dups", "mixed"])
-    n = rng.randint(100, 400) if big else rng.randint(2, 99)
+    n = rng.randint(100, 400) if big else (rng.randint(2, 99) if rng.random() < 0.7 else rng.randint(51, 99))
     L = rng.randint(10, 60) if big else rng.randint(5, 200)
     if mode == "equal":
         root = gen.rand_seq(rng, L, alpha)
@@ -56,7 +56,28 @@ def run_case(ck, paths, idx, big):
     word = rng.choice(kal.ADMISSIBLE[kind])
     nt = rng.choice([1, 4, 16])
     ctx = {"kind": kind, "type": word, "idx": idx, "big": big}
-    res, base = kal.cli_align(ck, paths, recs=recs, word=word, nthreads=nt, ctx=ctx)
+    # sometimes one record carries gap characters in the input (they are stripped by kalign); its position moves with the permutation
+    gapped_name = None
+    if len(recs) > 50 and rng.random() < 0.5:
+        cand = [n for n, s in recs[50:] if len(s) > 4]
+        if cand:
+            gapped_name = rng.choice(cand)
+            ck.count("inputs_with_gap_characters_in_one_record")
+
+    def present(rs):
+        if gapped_name is None:
+            return None
+        out = []
+        for n, s in rs:
+            if n == gapped_name:
+                k = len(s) // 2
+                s = s[:k] + "--" + s[k:k + 2] + "." + s[k + 2:]
+            out.append((n, s))
+        f_ = ck.tmp(".fa")
+        common.write_bytes(f_, fmt.write_fasta(out))
+        return [f_]
+
+    res, base = kal.cli_align(ck, paths, recs=recs, files=present(recs), word=word, nthreads=nt, ctx=ctx)
     if base is None:
         if res.proc.rc == 1:
             ck.violation("rejected-valid-input", res.stderr[-300:], dict(ctx, input=recs))
@@ -83,7 +104,7 @@ def run_case(ck, paths, idx, big):
             res2, rows = kal.cli_align(ck, paths, recs=perm, files=[f1, f2], word=word, nthreads=nt2, ctx=dict(ctx, multi_file=True))
             ck.count("permutations_via_two_files")
         else:
-            res2, rows = kal.cli_align(ck, paths, recs=perm, word=word, nthreads=nt2, ctx=ctx)
+            res2, rows = kal.cli_align(ck, paths, recs=perm, files=present(perm), word=word, nthreads=nt2, ctx=ctx)
         ck.count("permutations_tried")
         if rows is None:
             if res2.proc.rc == 1:
